@@ -29,6 +29,8 @@ pub async fn handle_did_open_text_document(
     state.documents.handle_open_file(&uri).await;
 
     send_new_compilation_request(state, session.clone(), &uri, None, false, sync_workspace);
+    #[cfg(feature = "verif")]
+    sway_core::verif_hooks::point("open.store_compiling_true");
     state.is_compiling.store(true, Ordering::SeqCst);
     state.wait_for_parsing().await;
     state
@@ -48,13 +50,19 @@ fn send_new_compilation_request(
 ) {
     let file_versions = file_versions(&state.documents, uri, version.map(|v| v as u64));
 
+    #[cfg(feature = "verif")]
+    sway_core::verif_hooks::point("send.load_is_compiling");
     if state.is_compiling.load(Ordering::SeqCst) {
         // If we are already compiling, then we need to retrigger compilation
+        #[cfg(feature = "verif")]
+        sway_core::verif_hooks::point("send.store_retrigger_true");
         state.retrigger_compilation.store(true, Ordering::SeqCst);
     }
 
     // Check if the channel is full. If it is, we want to ensure that the compilation
     // thread receives only the most recent value.
+    #[cfg(feature = "verif")]
+    sway_core::verif_hooks::point("send.is_full");
     if state.cb_tx.is_full() {
         while let Ok(TaskMessage::CompilationContext(_)) = state.cb_rx.try_recv() {
             // Loop will continue to remove `CompilationContext` messages
@@ -62,6 +70,8 @@ fn send_new_compilation_request(
         }
     }
 
+    #[cfg(feature = "verif")]
+    sway_core::verif_hooks::wait_until("send.send", &|| !state.cb_tx.is_full());
     let _ = state
         .cb_tx
         .send(TaskMessage::CompilationContext(CompilationContext {
